@@ -100,7 +100,7 @@ pub fn run(case: &Value, em: &mut Emitter) {
 }
 
 const SRC: &[&str] = &["a", "", "/abs/x", "http://h/y", "https://h/z", "b/c.js", "a", "httpx", "ü", "d", "e", "/", "f//", "g", "http:"];
-const ROOT: &[&str] = &["", "r", "r/", "/", "http://cdn/", "x//", "./rel"];
+const ROOT: &[&str] = &["", "r", "r/", "r//", "/", "//", "http://cdn/", "x", "x/", "x//", "./rel", "webpack://", "webpack:///"];
 const NAMES: &[&str] = &["n", "", "m", "n", "𝒳", "k", "\"q\""];
 
 pub fn gen(rng: &mut Rng, size: usize) -> Value {
